@@ -155,7 +155,7 @@ pub fn profile(ev: Ev) -> Profile {
 
 /// A placeholder that compares equal (or nearly so) to `p` but is a different value: other sign of zero,
 /// other Decimal scale, other Number variant; failing that, a neighbour.
-fn twin_of(p: &Val) -> Val {
+pub fn twin_of(p: &Val) -> Val {
     match p {
         Val::F(v) if *v == 0.0 => Val::F(-*v),
         Val::F(v) if v.is_nan() => Val::F(f64::from_bits(v.to_bits() ^ (1 << 63))),
